@@ -1,6 +1,6 @@
 (* Model of eap/eap.go, eap_identity.go, eap_nak.go, eap_notification.go, eap_expanded.go and the
    codec half of eap_aka_prime.go (SetAttr / GetAttr / Marshal / Unmarshal). *)
-From IKE Require Import Lib.Base Impl.Msg.
+From IKE Require Import Lib.Base Prim.Hmac Impl.Msg.
 Local Open Scope N_scope.
 
 (* ---------- EAP-AKA' attribute map ---------- *)
@@ -172,3 +172,20 @@ Definition eap_unmarshal (b : bytes) : res eap :=
      else if ty =? 254 then expanded_unmarshal body
      else Err) in
   Ok (mkEap code id td).
+
+(* ---------- (EAP).CalcEapAkaPrimeAtMAC ---------- *)
+Section AtMac.
+  Variable sha256 : bytes -> bytes.
+  (* returns the code and the packet as left behind (AT_MAC zeroed) *)
+  Definition calc_at_mac (e : eap) (key : bytes) : res (bytes * eap) :=
+    match e_data e with
+    | EDNone => Fault                            (* nil EapTypeData: method call on a nil interface *)
+    | EDAka st rs attrs =>
+      let* attrs' := aka_set_attr attrs 11 (zeros 16) in
+      let e' := mkEap (e_code e) (e_id e) (EDAka st rs attrs') in
+      let* b := eap_marshal e' in
+      let* mac := upto (IKE.Prim.Hmac.hmac sha256 64 key b) 16 in
+      Ok (mac, e')
+    | _ => Err
+    end.
+End AtMac.
